@@ -6,7 +6,7 @@ import json, os, subprocess, sys
 ROOT = os.path.dirname(os.path.dirname(os.path.abspath(__file__)))
 props = sys.argv[1].split(",")
 seeds = sys.argv[2:] or sorted(d for d in os.listdir(os.path.join(ROOT, "seeded")) if os.path.isdir(os.path.join(ROOT, "seeded", d)))
-path = os.path.join(ROOT, "seeded", "matrix.json")
+path = os.path.join(ROOT, "seeded", "matrix%s.json" % (("-" + os.environ["SEEDTEST_LANE"]) if os.environ.get("SEEDTEST_LANE") else ""))
 matrix = json.load(open(path)) if os.path.exists(path) else {}
 for s in seeds:
     patch = os.path.join(ROOT, "seeded", s, "patch.rebased.diff")
